@@ -276,6 +276,20 @@ def structured_program(rng, size=30, aligned=True, faults=False):
                 out.append({"m": rng.choice(["sb", "sh"]), "rs1": 31, "rs2": rx, "imm": off + rng.choice([0, 2])})
                 out.append({"m": "lw", "rd": ry, "rs1": 31, "imm": off})
                 out.append(rng.choice([{"m": "slli", "rd": ry, "rs1": ry, "imm": rng.randint(8, 31)}, {"m": "add", "rd": ry, "rs1": ry, "rs2": ry}, {"m": "sll", "rd": ry, "rs1": ry, "rs2": ry}, {"m": "mul", "rd": ry, "rs1": ry, "rs2": ry}]))
+            elif r < 0.635:
+                # load, then a sub-word store INTO the loaded bytes at a non-zero offset, then the very same load again
+                # (no other read in between), both results combined so that a stale second result shows
+                off = rng.randrange(0, 60, 4)
+                rx, ry, rz = rng.choice(work), rng.choice(work), rng.choice(work)
+                ld = rng.choice(["lw", "lw", "lh", "lhu"])
+                w_ = 4 if ld == "lw" else 2
+                lo = off + (rng.choice([0, 2]) if w_ == 2 else 0)
+                st_m = rng.choice(["sb", "sh"]) if w_ == 4 else "sb"
+                st_off = lo + (rng.choice([1, 2, 3]) if st_m == "sb" and w_ == 4 else (2 if st_m == "sh" else 1))
+                out.append({"m": ld, "rd": ry, "rs1": 31, "imm": lo})
+                out.append({"m": st_m, "rs1": 31, "rs2": rx, "imm": st_off})
+                out.append({"m": ld, "rd": rz, "rs1": 31, "imm": lo})
+                out.append({"m": rng.choice(["xor", "sub", "add"]), "rd": rz, "rs1": rz, "rs2": ry})
             elif r < 0.7 and depth < 2:
                 cnt = [28, 29, 30][depth]
                 inner = body(rng.randint(1, 4), depth + 1)
